@@ -236,8 +236,9 @@ struct Value {
             s << int64;
             break;
         case T_DATA:
-            if (data.size() < 5) {
-                // we need to push this as a number
+            if (data.size() < 5 && CScriptNum::serialize(int_value()) == data) {
+                // the data is the canonical encoding of a number: push it as a number (OP_0, OP_1..16, OP_1NEGATE, ...)
+                // anything else (e.g. 0x00, 0x0100) must be pushed as is, or different bytes end up on the stack
                 int64_t i = int_value();
                 s << i;
                 break;
